@@ -21,7 +21,8 @@ use std::net::IpAddr;
 use sciparse::{
     core::view::{View, ViewConversionError},
     dataplane_path::types::PathType,
-    packet::view::ScionPacketView,
+    packet::{classify::ClassifiedPacketView, view::ScionPacketView},
+    payload::scmp::view::ScmpMessageExt,
 };
 use thiserror::Error;
 
@@ -69,6 +70,23 @@ pub enum PacketPolicyError<'a> {
     InvalidPathType(&'a ScionPacketView, PathType),
     #[error("packet does not have a valid source address")]
     InvalidSourceAddress(&'a ScionPacketView),
+}
+
+impl PacketPolicyError<'_> {
+    /// Returns true if the rejected datagram is itself an SCMP error message.
+    ///
+    /// Such a datagram must never be answered with another SCMP error.
+    pub fn offending_packet_is_scmp_error(&self) -> bool {
+        let view = match self {
+            PacketPolicyError::MalformedPacket(..) => return false,
+            PacketPolicyError::InvalidPathType(view, _)
+            | PacketPolicyError::InvalidSourceAddress(view) => view,
+        };
+        matches!(
+            view.try_classify(),
+            Ok(ClassifiedPacketView::Scmp(scmp)) if scmp.scmp().message().is_error()
+        )
+    }
 }
 
 impl std::fmt::Debug for PacketPolicyError<'_> {
